@@ -604,6 +604,17 @@ func runC05(t *testing.T, seed uint64, planJSON []byte, tier string) (res *Resul
 					okStatus = simtc.BSPhaseTwoCommitted
 				}
 				success := answered && status == okStatus
+				// "retryable failure otherwise": a failure the coordinator must not
+				// take as final
+				if answered && !success && (status == simtc.BSPhaseTwoCommitFailedNoRetry || status == simtc.BSPhaseTwoRollbackFailedNoRetr) {
+					why := q.Result
+					if q.Unknown {
+						why = "unknown-resource"
+					} else if q.Data == "malformed" || q.Data == "notjson-object" {
+						why = "malformed-data"
+					}
+					vv("truthful-status", "unretryable-failure-"+why, "the request failed (%s) and was answered with the final status %d instead of a retryable failure", why, status)
+				}
 				switch {
 				case q.Unknown:
 					if totalAfter != totalBefore {
